@@ -49,6 +49,9 @@ func symCheck(s symSpec) checkFn {
 		if err := c.ReplaySym(files, assign); err != nil {
 			return err
 		}
+		if err := c.HarvestSymBP(files); err != nil {
+			return err
+		}
 		if s.bigFam != "" {
 			c.Logf("TLC: large-tensor cases (Gen_Big, family %s; templates checked against the definitions on the small grid)", s.bigFam)
 			big, err := c.Generate("Gen_Big", 1, timeout, "QV_FAM="+s.bigFam)
